@@ -2,9 +2,11 @@
 (* Validates executions of the REAL place_objects -> apply_params pipeline (/repo/src) against the
    definitions of Overlap.tla.  One record = one scene: device boxes and object boxes AS PLACED by
    fdtdx (grid slices read back from the placed objects), and for every source/detector
+   calls[r] = observations after the r-th consecutive apply_params call (parameter patterns alternate):
      leaves : one triple << observed, fresh, pre >> of integer fingerprints per state array of the object
               observed = the object returned by apply_params
-              fresh    = the same object after a fresh apply against the arrays returned by apply_params
+              fresh    = the same object after a fresh apply against ALL arrays returned by that call
+                         (inv_permittivities, inv_permeabilities, dispersive_c1..c4, electric_conductivity)
               pre      = the same object after an apply against the pre-device arrays of place_objects
      nums   : (mode objects) << observed, fresh, pre >> of the effective index in units of 1e-8, compared
               within tol (the eigenmode solver is not bit-reproducible); their mode fields are not compared
@@ -28,36 +30,46 @@ WellFormed(c) ==
     /\ \A k \in 1..Len(c.objs) :
          LET o == c.objs[k] IN
          /\ Len(o.box) = 3 /\ D!IsBox(Box(o.box), c.n)
-         /\ \A j \in 1..Len(o.leaves) : Len(o.leaves[j]) = 3
-         /\ \A j \in 1..Len(o.nums) : Len(o.nums[j]) = 3
          /\ o.tol >= 0 /\ o.tol <= 10
-         /\ o.has_snap => Len(o.snap) = D!BoxLen(Box(o.box))
+         /\ Len(o.calls) >= 1
+         /\ \A r \in 1..Len(o.calls) :
+              LET q == o.calls[r] IN
+              /\ \A j \in 1..Len(q.leaves) : Len(q.leaves[j]) = 3
+              /\ \A j \in 1..Len(q.nums) : Len(q.nums[j]) = 3
+              /\ q.has_snap => Len(q.snap) = D!BoxLen(Box(o.box))
 
 Abs(x) == IF x < 0 THEN -x ELSE x
-\* "state equals fresh state": exact arrays by fingerprint, solver outputs (effective index) within o.tol
-Same(o)  == /\ \A j \in 1..Len(o.leaves) : o.leaves[j][1] = o.leaves[j][2]
-            /\ \A j \in 1..Len(o.nums) : Abs(o.nums[j][1] - o.nums[j][2]) <= o.tol
+\* "state equals fresh state" after one apply_params call: exact arrays by fingerprint (they include every
+\* array derived from inv_permittivities AND from the dispersion / conductivity arrays), solver outputs
+\* (effective index, real and imaginary part) within tol
+Same(q, tol) == /\ \A j \in 1..Len(q.leaves) : q.leaves[j][1] = q.leaves[j][2]
+                /\ \A j \in 1..Len(q.nums) : Abs(q.nums[j][1] - q.nums[j][2]) <= tol
 RelStr(o, c) == ToString(D!Rel3(Box(o.box), DevsOf(c)[1]))
 
-\* verdict of one object of a scene
-ObjVerdict(o, c) ==
-    LET B == Box(o.box)  Ds == DevsOf(c)  needs == D!NeedsReapply(B, Ds) IN
-    IF needs /\ ~Same(o)
-      THEN "stale: object sharing a cell with a device does not hold the state of a fresh set-up; relation " \o RelStr(o, c)
-    ELSE IF needs /\ o.has_snap /\ ~o.snap_exact
+\* verdict of one object of a scene after its r-th apply_params call (patterns alternate 0,1,0,...)
+CallVerdict(o, c, r) ==
+    LET B == Box(o.box)  Ds == DevsOf(c)  needs == D!NeedsReapply(B, Ds)  q == o.calls[r]
+        where == "; call " \o ToString(r) \o "; relation " \o RelStr(o, c) IN
+    IF needs /\ ~Same(q, o.tol)
+      THEN "stale: object sharing a cell with a device does not hold the state of a fresh set-up against the returned arrays" \o where
+    ELSE IF needs /\ q.has_snap /\ ~q.snap_exact
       THEN "model: sampled inverse permittivities are not multiples of 1/4"
-    ELSE IF needs /\ o.has_snap /\ o.snap # D!ExpectedSnap(B, Ds)
-      THEN "model: fresh set-up differs from the post-device material model; relation " \o RelStr(o, c)
-    ELSE IF needs /\ ~o.flagged
+    ELSE IF needs /\ q.has_snap /\ q.snap # D!ExpectedSnap(B, Ds, r)
+      THEN "model: fresh set-up differs from the post-device material model" \o where
+    ELSE IF needs /\ ~q.flagged
       THEN "flag: check_overlap is false for an intersecting object although its state is fresh"
-    ELSE IF ~needs /\ ~Same(o)
+    ELSE IF ~needs /\ ~Same(q, o.tol)
       THEN "unclaimed: object not sharing a cell with any device differs from a fresh set-up"
     ELSE "ok"
 
+RECURSIVE FirstBadCall(_, _, _)
+FirstBadCall(o, c, r) == IF r > Len(o.calls) THEN "ok"
+                         ELSE LET v == CallVerdict(o, c, r) IN IF v # "ok" THEN v ELSE FirstBadCall(o, c, r + 1)
 RECURSIVE FirstBad(_, _)
 FirstBad(c, k) == IF k > Len(c.objs) THEN "ok"
-                  ELSE LET v == ObjVerdict(c.objs[k], c) IN IF v # "ok" THEN v ELSE FirstBad(c, k + 1)
-Verdict(c) == IF ~WellFormed(c) THEN "malformed: boxes, leaves or snapshot length" ELSE FirstBad(c, 1)
+                  ELSE LET v == FirstBadCall(c.objs[k], c, 1) IN IF v # "ok" THEN v ELSE FirstBad(c, k + 1)
+Verdict(c) == IF c.skipped THEN "skipped: eigenmode solver did not converge, scene not observed"
+              ELSE IF ~WellFormed(c) THEN "malformed: boxes, leaves or snapshot length" ELSE FirstBad(c, 1)
 
 TInit == ci = 1 /\ TLCSet(1, << >>)
 TNext == /\ ci <= Len(Cases)
